@@ -20,6 +20,7 @@ type VerifLimiter struct{ R *rateLimiter }
 func VerifUnwrap(r RateLimiter) VerifLimiter { return VerifLimiter{R: r.(*rateLimiter)} }
 
 func (v VerifLimiter) Elector() elector.LeaderElector            { return v.R.leaderElector }
+func (v VerifLimiter) SetElector(e elector.LeaderElector)        { v.R.leaderElector = e }
 func (v VerifLimiter) Controller() controller.UpstreamController { return v.R.upstreamController }
 func (v VerifLimiter) LeaderCheck()                              { v.R.leaderCheck() }
 func (v VerifLimiter) CleanupTimeoutClient()                     { v.R.cleanupTimeoutClient() }
